@@ -8,7 +8,7 @@ RULE = ("strictly increasing (key, position) sequences: keys dense/sparse/extrem
         "first/last bit of a word, word-aligned runs, singles, up to 262143; slices by sorted key sets (present and "
         "absent keys); boundary-encoded calls with 1..64 segments incl. two segments meeting inside one word. "
         "Non-trivial = at least two words and one word holding more than one position. Distinct by input hash.")
-TRUSTED = ["extraction (ExtrOcamlBasic only) + ocaml/driver.ml", "numpy glue of encode/decode is modelled by list combinators "
+TRUSTED = ["extraction (ExtrOcamlBasic + Extract Inlined Constant rev => List.rev) + ocaml/driver.ml", "numpy glue of encode/decode is modelled by list combinators "
            "(floor_divide, shifts, diff/nonzero, reduceat, lexsort/unique/split)"]
 ASSUMPTIONS = ["keys < 2^28 and positions <= 262143 (the property's domain)"]
 EXPLANATION = ("Theorems in Props/C13.v about the numpy-level codec model; check = real encoder vs extracted model vs "
